@@ -174,6 +174,7 @@ Proof. exact ex_hist_reuse. Qed.
    Noop as classes of their own and operations with fields still to be filled in).  C05's names are written
    qualified (CodecOps.op ...); [V H] is C05's value model, typed by its own [type_of]. ---- *)
 From HV Require model.Codec model.CodecVals model.CodecOps proofs.CodecOpsP proofs.CodecDocP.
+From HV Require model.ComposeDepth proofs.ComposeDepthP proofs.ComposeExamplesP.
 From HV Require Import model.OpsBridge proofs.OpsBridgeP.
 
 Theorem C06_codec_translation_covers : forall H,
@@ -276,6 +277,69 @@ Theorem C06_codec_preserves_spec_signature_no_function_constants : forall H SH (
                  end) /\
     CodecOps.op_facts H h_type o2 = enc_reports (c06_reports H h_type (to_c06 o)).
 Proof. exact codec_preserves_spec_no_function_constants. Qed.
+
+(* ... and at ANY nesting depth n of function-valued constants, function constants included, with no hypothesis
+   about operations or payloads: the payload hypothesis is the round trip of the embedded HUGR, which
+   proofs/ComposeDepthP.v (C02 o C05, [tower_rt]) proves for the tower HT md n / ST md n of HUGRs / documents
+   embedded to depth n (okT: that theorem's own premises on the embedded HUGRs -- C02's guard, C05's op_ok on every
+   node, a root with an inner signature -- as a boolean).  [md] is the metadata type with its empty value; the
+   closed form below takes the harness's interned metadata (N, 0 = {}) *)
+Theorem C06_codec_preserves_spec_signature_any_depth :
+  forall (md : Type) (md_nil : md) (md_is_nil : md -> bool),
+    md_is_nil md_nil = true -> (forall m, md_is_nil m = true -> m = md_nil) ->
+  forall (n : nat) (o : CodecOps.op (ComposeDepth.HT md n)) (parent : N),
+    CodecOpsP.OpOK (ComposeDepth.HT md n) (ComposeDepth.okT md md_is_nil n) o ->
+    let H := ComposeDepth.HT md n in
+    let h_type := ComposeDepth.typeT md n in
+    let o2 := CodecOps.op_deserialize H (ComposeDepth.ST md n) (ComposeDepth.decT md md_nil n)
+                (CodecOps.op_to_serial H (ComposeDepth.ST md n) (ComposeDepth.encT md md_is_nil n) o parent) in
+    (forall s, has_sig (to_c06 o) s ->
+       exists s2 f2, has_sig (to_c06 o2) s2 /\ rows_same s s2 /\ df_sig (to_c06 o2) = Ret f2 /\ (f_in f2, f_out f2) = s2) /\
+    (forall s2, has_sig (to_c06 o2) s2 -> exists s, has_sig (to_c06 o) s /\ rows_same s s2) /\
+    (forall s, has_inner_sig (to_c06 o) s ->
+       exists s2 f2, has_inner_sig (to_c06 o2) s2 /\ rows_same s s2 /\ inner_sig (to_c06 o2) = Ret f2 /\ (f_in f2, f_out f2) = s2) /\
+    (forall k, spec_num_out (to_c06 o) = Some k ->
+       spec_num_out (to_c06 o2) = Some k /\ num_out (to_c06 o2) = Ret (Z.of_nat k)) /\
+    (forall d z, match spec_port_kind (ct H h_type) (to_c06 o) d z with
+                 | Port k => exists k2, port_kind (vt H h_type) (to_c06 o2) d z = Ret k2 /\ kind_same k k2
+                 | NoPort => is_typed (port_kind (vt H h_type) (to_c06 o2) d z) = false
+                 | Unspecified => True
+                 end) /\
+    CodecOps.op_facts H h_type o2 = enc_reports (c06_reports H h_type (to_c06 o)).
+Proof. exact codec_preserves_spec_any_depth. Qed.
+Theorem C06_codec_preserves_spec_signature_any_depth_closed :
+  forall (n : nat) (o : CodecOps.op (ComposeDepth.HT N n)) (parent : N),
+    CodecOpsP.OpOK (ComposeDepth.HT N n) (ComposeDepth.okT N ComposeExamplesP.is0 n) o ->
+    let H := ComposeDepth.HT N n in
+    let h_type := ComposeDepth.typeT N n in
+    let o2 := CodecOps.op_deserialize H (ComposeDepth.ST N n) (ComposeDepth.decT N 0%N n)
+                (CodecOps.op_to_serial H (ComposeDepth.ST N n) (ComposeDepth.encT N ComposeExamplesP.is0 n) o parent) in
+    (forall s, has_sig (to_c06 o) s ->
+       exists s2 f2, has_sig (to_c06 o2) s2 /\ rows_same s s2 /\ df_sig (to_c06 o2) = Ret f2 /\ (f_in f2, f_out f2) = s2) /\
+    (forall s2, has_sig (to_c06 o2) s2 -> exists s, has_sig (to_c06 o) s /\ rows_same s s2) /\
+    (forall s, has_inner_sig (to_c06 o) s ->
+       exists s2 f2, has_inner_sig (to_c06 o2) s2 /\ rows_same s s2 /\ inner_sig (to_c06 o2) = Ret f2 /\ (f_in f2, f_out f2) = s2) /\
+    (forall k, spec_num_out (to_c06 o) = Some k ->
+       spec_num_out (to_c06 o2) = Some k /\ num_out (to_c06 o2) = Ret (Z.of_nat k)) /\
+    (forall d z, match spec_port_kind (ct H h_type) (to_c06 o) d z with
+                 | Port k => exists k2, port_kind (vt H h_type) (to_c06 o2) d z = Ret k2 /\ kind_same k k2
+                 | NoPort => is_typed (port_kind (vt H h_type) (to_c06 o2) d z) = false
+                 | Unspecified => True
+                 end) /\
+    CodecOps.op_facts H h_type o2 = enc_reports (c06_reports H h_type (to_c06 o)).
+Proof. exact codec_preserves_spec_any_depth_closed. Qed.
+(* non-vacuity at depth 1: a Const holding a function value whose body is a 5-node DFG bool -> option(bool) (itself
+   containing a constant): the constant port carries the function type of the body's root before and after *)
+Example C06_codec_example_function_constant :
+  CodecOpsP.OpOK (ComposeDepth.HT N 1) (ComposeDepth.okT N ComposeExamplesP.is0 1) exb_fconst /\
+  spec_port_kind (ct (ComposeDepth.HT N 1) (ComposeDepth.typeT N 1)) (to_c06 exb_fconst) Out 0 =
+    Port (ConstKind ComposeExamplesP.tfn) /\
+  spec_num_out (to_c06 exb_fconst) = Some 1%nat /\
+  port_kind (vt (ComposeDepth.HT N 1) (ComposeDepth.typeT N 1))
+    (to_c06 (CodecOps.op_deserialize (ComposeDepth.HT N 1) (ComposeDepth.ST N 1) (ComposeDepth.decT N 0%N 1)
+               (CodecOps.op_to_serial (ComposeDepth.HT N 1) (ComposeDepth.ST N 1) (ComposeDepth.encT N ComposeExamplesP.is0 1) exb_fconst 0%N)))
+    Out 0 = Ret (ConstKind ComposeExamplesP.tfn).
+Proof. exact ex_bridge_function_constant. Qed.
 
 (* the translation forgets nothing but the description of an ExtOp's definition (not part of the model above) *)
 Theorem C06_codec_translation_faithful : forall H (o : CodecOps.op H), of_c06 (to_c06 o) = Some (forget_descr o).
@@ -408,3 +472,6 @@ Print Assumptions C06_codec_preserves_spec_signature_no_function_constants.
 Print Assumptions C06_codec_translation_faithful.
 Print Assumptions C06_codec_call_constructors_agree.
 Print Assumptions C06_codec_decoded_facts_are_model_answers.
+Print Assumptions C06_codec_preserves_spec_signature_any_depth.
+Print Assumptions C06_codec_preserves_spec_signature_any_depth_closed.
+Print Assumptions C06_codec_example_function_constant.
